@@ -432,6 +432,12 @@ def run(ctx):
             d = bytearray(raw)
             d[7] = v
             case("version byte := %d" % v, "version-byte", bytes(d))
+        # the header missing altogether or in part: the body alone is a
+        # well-formed protobuf message, the file is not a GTIRB file
+        case("header removed", "magic", raw[8:])
+        for k in (1, 5, 7):
+            case("first %d header bytes removed" % k, "magic", raw[k:])
+        case("header twice", "none-or-reject", raw[:8] + raw)
         case("empty file", "magic", b"")
         case("magic only", "version-byte", b"GTIRB")
         case("lower-case magic", "magic", b"gtirb" + raw[5:])
